@@ -126,6 +126,18 @@ func propRecover(t *rapid.T) {
 	if lib.ScInt(lr).Cmp(r) != 0 || lib.ScInt(ls).Cmp(s) != 0 {
 		t.Fatal("RecoverPublicKey modified r or s")
 	}
+	// follow-up call with the sibling id, then the original again: state carried across calls must not leak
+	if v < 4 && rapid.Bool().Draw(t, "follow-up") {
+		w2, ok2 := ref.ECDSARecover(digest, r, s, int(v^1))
+		q2, err2 := secec.RecoverPublicKey(digest, lr, ls, v^1)
+		if ok2 != (err2 == nil) || (ok2 && !bytes.Equal(q2.Bytes(), w2.Uncompressed())) {
+			t.Fatalf("RecoverPublicKey(digest=%x, r=%x, s=%x, v=%d) right after v=%d: err=%v, reference ok=%v %v", digest, r, s, v^1, v, err2, ok2, w2)
+		}
+		q3, err3 := secec.RecoverPublicKey(digest, lr, ls, v)
+		if (err3 == nil) != (err == nil) || (err == nil && !q3.Equal(q)) {
+			t.Fatalf("RecoverPublicKey(digest=%x, r=%x, s=%x, v=%d) differs between two identical calls", digest, r, s, v)
+		}
+	}
 	if !ok {
 		if err == nil || q != nil {
 			t.Fatalf("RecoverPublicKey(digest=%x, r=%x, s=%x, v=%d) returned a key, want an error", digest, r, s, v)
